@@ -134,6 +134,22 @@ def analyse_save_rows(res: RuleResult, summ) -> None:
             if e["name"] == "with_enter":
                 h = e["recv"]
                 break
+        # the exit that closes the file: the with_exit matching the first with_enter of the handle (a generator
+        # context manager around the open() contributes an inner enter / exit pair of its own)
+        depth = 0
+        started = False
+        for e in fe:
+            if e["name"] == "with_enter":
+                if not started and e["recv"] == h:
+                    started = True
+                    depth = 1
+                elif started:
+                    depth += 1
+            elif e["name"] == "with_exit" and started:
+                depth -= 1
+                if depth == 0:
+                    wexits = [e]
+                    break
         ok_dump = len(dumps) == 1 and len(dumps[0]["args"]) > 1 and dumps[0]["args"][1] == h
         ok_order = ok_dump and flushes and fsyncs and wexits and dumps[0]["i"] < flushes[0]["i"] < fsyncs[0]["i"] < wexits[0]["i"] and flushes[0]["recv"] == h and "fileno" in repr(fsyncs[0]["args"][0]) and repr(h) in repr(fsyncs[0]["args"][0])
         res.add("C12-R2", f"_save_{ext} / dump -> flush -> fsync(fileno) on the same handle inside the with block", bool(ok_order), "mysensors/persistence.py", "durable before visible" if ok_order else f"dump {len(dumps)}, flush {len(flushes)}, fsync {len(fsyncs)} - order or handle mismatch", r["witness"] if not ok_order else None)
